@@ -726,6 +726,7 @@ impl<T: PPGEvaluatorStrategy> PPGEvaluator<T> {
                 })
         };
 
+        let mut old_name_edge_records: Vec<String> = Vec::new();
         let mut out = self.history.clone();
         let mut out: HashMap<_, _> = out
             .drain()
@@ -750,7 +751,12 @@ impl<T: PPGEvaluatorStrategy> PPGEvaluator<T> {
                                 let downstream_recorded = b.history_output.is_some()
                                     || b.state
                                         == JobState::Ephemeral(JobStateEphemeral::FinishedSkipped);
-                                !downstream_recorded || filter_if_renamed(job_id_a)
+                                if downstream_recorded && !filter_if_renamed(job_id_a) {
+                                    // whether it is replaced is only known once the edges
+                                    // have been recorded, see below.
+                                    old_name_edge_records.push(k.clone());
+                                }
+                                true
                             }
                             _ => {
                                 // downstream is not in the graph: keep for when it returns,
@@ -910,6 +916,31 @@ impl<T: PPGEvaluatorStrategy> PPGEvaluator<T> {
                     }
                 };
                 out.insert(key, history.to_string());
+            }
+        }
+
+        // a record under the old name of a renamed upstream goes once the downstream has
+        // been recorded again - unless the upstream, under its new name, had nothing to
+        // record for that edge (it failed, or was aborted after the downstream had been
+        // skipped): then the old record still is all we know about what was consumed.
+        for key in old_name_edge_records {
+            let (job_id_a, job_id_b) = key.split_once("!!!").unwrap();
+            let still_the_only_record = job_id_a.split(":::").any(|part| {
+                match multi_parts_to_jobs.get(part) {
+                    Some(current_producer) => {
+                        self.dag
+                            .edge_weight(
+                                self.job_id_to_node_idx[current_producer],
+                                self.job_id_to_node_idx[job_id_b],
+                            )
+                            .is_some()
+                            && !out.contains_key(&format!("{}!!!{}", current_producer, job_id_b))
+                    }
+                    None => false,
+                }
+            });
+            if !still_the_only_record {
+                out.remove(&key);
             }
         }
 
